@@ -260,10 +260,10 @@ theorem write_confined (m data : Bytes) (a : Attr) (wf : WF m a) (hlen : data.le
     have hpd : (padded data).length = 16 * (1 + (data.length + 15) / 16 - 1) := by
       rw [padded_length]; congr 1; omega
     rcases hc with (hc | hc) | hc
-    · subst hc; simp
+    · subst hc; simp [encodeAttr_length]
     · have := dataCmds_mem (padded data) a.nbw _ wf.nbw hpd _ 1 (by omega) c hc
       omega
-    · subst hc; simp
+    · subst hc; simp [encodeAttr_length]
   · have hr := wf.range
     rw [finalMem_attr m data a wf.mem hlen]
     exact decode_encode _ ⟨hr.ver, hr.nbr, hr.nbw, hr.nmaxb, by simp, hr.rwflag, by simp only []; have := hr.nmaxb; omega⟩
